@@ -341,6 +341,9 @@ class CookieJar(AbstractCookieJar):
                 cookie = tmp[name]
 
             domain = cookie["domain"]
+            if domain != (lowered := domain.lower()):
+                # RFC 6265 section 5.2.3: the attribute is case-insensitive
+                domain = cookie["domain"] = lowered
 
             # ignore domains with trailing dots
             if domain and domain[-1] == ".":
